@@ -57,10 +57,15 @@ Unit(
     captured={"current_obj": "obj", "self": "obj:FQN"},
     requires=["self.scope_redirection_logic is None"],
     locals={"tx_attrs": "dict|none"},
+    # (the redirection branch is unreachable under the precondition; these two entries only let the engine walk
+    # through it when the feasibility budget is too short to prune it - every obligation there is vacuous)
+    calls={"self.scope_redirection_logic": Ext("scope_redirection_logic", returns="any",
+                                               note="unreachable here: requires scope_redirection_logic is None")},
     returns="any",
     modifies=[],
     preserves=FP,
     loops={
+        "for:res": Loop(modifies=["*"], inv=[]),
         "for:[a for a in parent.__dict__*": Loop(
             pure=True,
             inv=["implies(_i > 0, no_match(parent, as_str(_it[_i - 1]), name))",
